@@ -5,7 +5,16 @@ path stream is run on: OSFS / TempFS with `os`, `io`, `shutil`, `scandir` replac
 fs.osfs by logging proxies (every system path is recorded) and a canary tree around the
 root; SubFS at depth 1-3 over a recording parent; MountFS over recording members; crafted
 zip/tar archives. The system path / delegated path predicted by the model (Sandbox/
-Sandbox.v, extracted) is compared on a sample."""
+Sandbox.v, extracted) is compared on a sample.
+
+Round 3: (a) every object RETURNED by a call is itself put through a containment battery: sub-filesystems obtained
+through every API that returns one (found by reflection: opendir / makedir / makedirs, their factory= / recreate= keyword
+variants, the same APIs applied again to a result, `open_fs('<url>!<sub-path>')`) with every spelling class of the
+directory path, on every backend kind; the oracle is a ground-truth tree where every directory holds a marker naming its
+true location and where the same names exist at every ancestor level (decoys), the delegated-path / system-call logs,
+and a whole-world snapshot; (b) the constructor keywords of OSFS / TempFS / the osfs:// opener (by inspect.signature)
+x relative, '~' and '$VAR' root spellings, with the working directory, HOME and the variables changed between
+construction and use: every system call must stay below the directory the root denoted at construction time."""
 from __future__ import print_function
 
 import inspect
@@ -20,7 +29,12 @@ import tempfile
 import common
 from common import tok
 
+# TODO(main): signatures of misbehaviours of the UNCHANGED library exposed by this module that still wait for an entry in
+# known_findings.json; while listed here they are reported as PENDING-FINDING lines and do not fail the check.
+PENDING_FINDINGS = []
+
 COMPONENTS = ["..", ".", "", "a", "a.b", "d"]
+PATH_PARAMS = ("path", "src_path", "dst_path", "dir_path")
 
 
 def path_stream(rnd, n):
@@ -46,10 +60,79 @@ def public_methods():
             params = [p.name for p in inspect.signature(f).parameters.values()]
         except (TypeError, ValueError):
             continue
-        pos = [i for i, p in enumerate(params[1:]) if p in ("path", "src_path", "dst_path", "dir_path")]
+        pos = [i for i, p in enumerate(params[1:]) if p in PATH_PARAMS]
         if pos:
             out.append((n, params[1:], pos))
-    return out
+    return out + bound_methods()
+
+
+_BOUND = []
+
+
+def bound_methods():
+    """Path-taking methods of the objects bound to a filesystem through a property (fs.walk.files, fs.glob, ...),
+    by reflection; named 'prop.method' (or 'prop' when the bound object itself is callable)."""
+    if _BOUND:
+        return list(_BOUND)
+    from fs.base import FS
+    from fs.memoryfs import MemoryFS
+    probe = MemoryFS()
+    for n in sorted(dir(FS)):
+        if n.startswith("_") or not isinstance(inspect.getattr_static(FS, n), property):
+            continue
+        try:
+            v = getattr(probe, n)
+        except Exception:
+            continue
+        if isinstance(v, (str, bytes, int, float, bool, dict, list, tuple)) or v is None:
+            continue
+        cands = [(n, v)] if callable(v) else []
+        cands += [(n + "." + a, getattr(v, a)) for a in sorted(dir(v))
+                  if not a.startswith("_") and callable(getattr(v, a, None))]
+        for name, f in cands:
+            try:
+                params = [p.name for p in inspect.signature(f).parameters.values()]
+            except (TypeError, ValueError):
+                continue
+            pos = [i for i, p in enumerate(params) if p in PATH_PARAMS]
+            if pos:
+                _BOUND.append((name, params, pos))
+    probe.close()
+    return list(_BOUND)
+
+
+def resolve(fsx, name):
+    obj = fsx
+    for part in name.split("."):
+        obj = getattr(obj, part)
+    return obj
+
+
+def is_fs_error(e):
+    return any(k.__module__ in ("fs.errors", "fs.opener.errors") for k in type(e).__mro__)
+
+
+def consume(r, exercise=True):
+    """Use what a call returned the way a caller would: iterate iterables, close files, and - a returned
+    filesystem is a path-carrying object too - list / write / delete through it (under the caller's oracle)."""
+    from fs.base import FS
+    if isinstance(r, FS):
+        if exercise:
+            for op, a in (("listdir", ("/",)), ("exists", ("a",)), ("writebytes", ("ret-probe", b"R")),
+                          ("remove", ("ret-probe",)), ("getsyspath", ("/",))):
+                try:
+                    getattr(r, op)(*a)
+                except Exception:  # noqa
+                    pass
+        return r
+    if r is None or isinstance(r, (str, bytes, dict, tuple, list, set, int, float)):
+        return r
+    if hasattr(r, "read") and hasattr(r, "close"):
+        r.close()
+        return r
+    if inspect.isgenerator(r) or hasattr(r, "__next__") or hasattr(r, "__iter__"):
+        return list(r)
+    return r
 
 
 def build_args(params, positions, which, path, safe="a"):
@@ -69,6 +152,8 @@ def build_args(params, positions, which, path, safe="a"):
             args.append("w")
         elif p == "name":
             args.append("md5")
+        elif p == "pattern":
+            args.append("*")
         elif p in ("create", "overwrite", "recreate", "wipe"):
             args.append(True)
         else:
@@ -76,8 +161,35 @@ def build_args(params, positions, which, path, safe="a"):
     return args
 
 
+PURE_PATH_FUNCS = ("join", "split", "basename", "dirname", "normpath", "splitext", "commonprefix")
+TWO_PATH_FUNCS = ("rename", "renames", "replace", "link", "symlink", "copy", "copy2", "copyfile", "copystat", "copymode",
+                  "copytree", "move", "samefile")
+_PATH_FUNCS = set()
+
+
+def path_funcs():
+    """Names of the os / os.path / io / shutil / tempfile functions whose leading argument is a file-system path."""
+    if not _PATH_FUNCS:
+        _PATH_FUNCS.update((
+            "listdir", "mkdir", "makedirs", "remove", "unlink", "rmdir", "removedirs", "open", "scandir", "walk", "stat",
+            "lstat", "chmod", "chown", "lchown", "utime", "readlink", "access", "truncate", "exists", "lexists", "isdir",
+            "isfile", "islink", "getsize", "getmtime", "getatime", "getctime", "ismount", "realpath", "rmtree", "chdir",
+            "statvfs", "disk_usage", "mkfifo", "mknod", "listxattr", "getxattr", "setxattr", "removexattr", "fwalk"))
+        _PATH_FUNCS.update(TWO_PATH_FUNCS)
+        for group in ("supports_fd", "supports_dir_fd", "supports_follow_symlinks", "supports_effective_ids"):
+            _PATH_FUNCS.update(getattr(f, "__name__", "") for f in getattr(os, group, ()))
+        _PATH_FUNCS.discard("")
+    return _PATH_FUNCS
+
+
+def _text(x):
+    return x if isinstance(x, str) else x.decode("utf8", "replace")
+
+
 class Logger(object):
-    """Module proxy: records the path-like arguments of every function called through it."""
+    """Module proxy: records the path-like arguments of every function called through it. A relative path given to
+    a path-taking function is recorded as what the kernel resolves it to: joined to the working directory of the
+    moment of the call."""
     def __init__(self, real, log, name):
         self.__dict__["_real"] = real
         self.__dict__["_log"] = log
@@ -89,10 +201,18 @@ class Logger(object):
             log, name = self._log, self._name
 
             def f(*a, **kw):
-                for x in list(a) + list(kw.values()):
-                    if isinstance(x, (str, bytes)) and (x if isinstance(x, str) else x.decode("utf8", "replace")).startswith(os.sep) \
-                            and attr not in ("join", "split", "basename", "dirname", "normpath", "splitext", "commonprefix"):
-                        log.append(("%s.%s" % (name, attr), x if isinstance(x, str) else x.decode("utf8", "replace")))
+                for i, x in enumerate(list(a) + list(kw.values())):
+                    if not isinstance(x, (str, bytes)):
+                        if hasattr(x, "__fspath__") and attr in path_funcs():
+                            x = os.fspath(x)
+                        else:
+                            continue
+                    t = _text(x)
+                    if t.startswith(os.sep):
+                        if attr not in PURE_PATH_FUNCS:
+                            log.append(("%s.%s" % (name, attr), t))
+                    elif attr in path_funcs() and (i == 0 or (i == 1 and attr in TWO_PATH_FUNCS)):
+                        log.append(("%s.%s" % (name, attr), os.path.abspath(t)))
                 return v(*a, **kw)
             return f
         if inspect.ismodule(v):
@@ -156,15 +276,15 @@ def run_osfs(rnd, paths, temp=False):
                     del log[:]
                     args = build_args(params, positions, which, p)
                     try:
-                        r = getattr(fsx, m)(*args)
-                        if inspect.isgenerator(r) or hasattr(r, "__next__"):
-                            r = list(r)
-                        if hasattr(r, "close") and hasattr(r, "read"):
-                            r.close()
+                        r = resolve(fsx, m)(*args)
+                        name = getattr(r, "name", None) if hasattr(r, "read") else None
+                        r = consume(r)
                         verdict = "ok"
                         disclosed = None
                         if isinstance(r, str) and base in r:      # a system path (possibly inside a URL)
                             disclosed = r[r.index(base):]
+                        elif isinstance(name, (str, bytes)) and base in _text(name):   # the name of a returned file object
+                            disclosed = _text(name)[_text(name).index(base):]
                     except Exception as e:  # noqa
                         verdict = type(e).__name__
                         disclosed = None
@@ -214,7 +334,7 @@ def make_recording(log, ident):
             params = [p.name for p in inspect.signature(f).parameters.values()][1:]
         except (TypeError, ValueError):
             continue
-        pos = [i for i, p in enumerate(params) if p in ("path", "src_path", "dst_path", "dir_path")]
+        pos = [i for i, p in enumerate(params) if p in PATH_PARAMS]
         if not pos:
             continue
 
@@ -265,11 +385,7 @@ def run_subfs(rnd, paths, depth):
                 del log[:]
                 args = build_args(params, positions, which, p)
                 try:
-                    r = getattr(fsx, m)(*args)
-                    if inspect.isgenerator(r) or hasattr(r, "__next__"):
-                        r = list(r)
-                    if hasattr(r, "close") and hasattr(r, "read"):
-                        r.close()
+                    r = consume(resolve(fsx, m)(*args))
                     verdict = "ok"
                 except Exception as e:  # noqa
                     verdict = type(e).__name__
@@ -327,11 +443,7 @@ def run_mount(rnd, paths):
                 before1 = snap(members[1])
                 args = build_args(params, positions, which, "m0/" + p, safe="m0/a")
                 try:
-                    r = getattr(mf, m)(*args)
-                    if inspect.isgenerator(r) or hasattr(r, "__next__"):
-                        r = list(r)
-                    if hasattr(r, "close") and hasattr(r, "read"):
-                        r.close()
+                    r = consume(resolve(mf, m)(*args))
                     verdict = "ok"
                 except Exception as e:  # noqa
                     verdict = type(e).__name__
@@ -468,6 +580,1018 @@ def model_check(paths):
     return n, bad
 
 
+# --------------------------------------------------------------------------- round 3: returned objects
+# Ground truth: every directory of a world holds the same small subtree, every file of it is a marker whose content
+# names the directory it really lives in. The subtree is planted at EVERY ancestor level of the filesystem under test
+# and in a sibling whose name extends the box's name, so a sub-filesystem rooted one level too high (or in a sibling)
+# finds all the names it looks for - with the wrong markers.
+SUBTREE = ("marker", "data/marker", "data/sub/marker", "data/data/marker", "sub/marker")
+DECOY_NAMES = ("marker", "data", "sub", "new", "probe.bin")
+EXISTING_TARGETS = ((), ("data",), ("data", "sub"))
+NEW_TARGETS = (("new",), ("data", "new"))
+PROBE_PATHS = ["/", "marker", "data", "nw", "..", "../marker", "x/../../marker", "/../sub", "data/../..", "//", "./data/./"]
+ABSENT = "<absent>"
+
+
+def subtree_entries(level):
+    for rel in SUBTREE:
+        comps = tuple(level) + tuple(rel.split("/"))
+        yield comps, ("marker@/" + "/".join(comps[:-1])).encode()
+
+
+def levels_of(box):
+    out = [tuple(box[:i]) for i in range(len(box) + 1)]
+    if box:
+        out.append(tuple(box[:-1]) + (box[-1] + "-private",))
+    return out
+
+
+def spellings(comps):
+    """(class, text) for every spelling class of the directory `comps` below a filesystem root."""
+    comps = tuple(comps)
+    if not comps:
+        return [("root-empty", ""), ("root-slash", "/"), ("root-dot", "."), ("root-dot-slash", "./"),
+                ("root-double-slash", "//"), ("root-slash-dot", "/."), ("inner-dotdot", "data/.."),
+                ("absolute-inner-dotdot", "/data/.."), ("mixed", "/./data//../.")]
+    rel = "/".join(comps)
+    return [("relative", rel), ("absolute", "/" + rel), ("trailing-slash", rel + "/"),
+            ("absolute-trailing-slash", "/" + rel + "/"), ("dot-prefix", "./" + rel), ("absolute-dot", "/./" + rel),
+            ("double-slash", "//" + "//".join(comps) + "//"), ("inner-dot", "/".join(c + "/." for c in comps)),
+            ("inner-dotdot", "zz/../" + rel), ("absolute-inner-dotdot", "/" + comps[0] + "/../" + rel),
+            ("tail-dotdot", rel + "/zz/.."), ("mixed", "/./" + "//".join(comps) + "/./zz/..//")]
+
+
+def model_denotations(texts):
+    """What each spelling denotes below a root according to the extracted model (Sandbox.v osfs_syspath): a tuple of
+    components, or None when the model rejects the path."""
+    out = {}
+    texts = sorted(set(texts))
+    for t, line in zip(texts, common.run_model(["sandbox syspath %s" % tok(t) for t in texts])):
+        if not line.startswith("ok:["):
+            out[t] = None
+            continue
+        body = line[4:-1]
+        out[t] = tuple(common.untok(x[1:]) if len(x) > 1 else "" for x in body.split(";")) if body else ()
+    return out
+
+
+def under(key, D):
+    comps = tuple(c for c in key.split("/") if c)
+    return comps[:len(D)] == tuple(D)
+
+
+def diff_outside(before, after, D):
+    return sorted(k for k in set(before) | set(after)
+                  if before.get(k, ABSENT) != after.get(k, ABSENT) and not under(k, D))
+
+
+def fast_tmp():
+    """A memory-backed directory for the many small trees of the sweeps when there is one (plain temp dir otherwise)."""
+    d = "/dev/shm"
+    return d if os.path.isdir(d) and os.access(d, os.W_OK | os.X_OK) else None
+
+
+class World(object):
+    """Ground truth + filesystem under test. `fs` is the filesystem under test, rooted at directory `box` of the
+    ground-truth namespace (keys 'a/b/c' -> bytes, or None for a directory); targets are spelled below `tprefix`.
+    A world is reused from one returned object to the next: restore() brings the ground truth back to `pristine`."""
+    os_top = None
+    readonly = False
+    tprefix = ()
+    mount = False
+
+    def restore(self, cur=None):
+        if self.readonly:
+            return
+        cur = self.snapshot() if cur is None else cur
+        if cur == self.pristine:
+            return
+        want = self.pristine
+        repairs = 0
+        for k in sorted((k for k in cur if k not in want or (want[k] is None) != (cur[k] is None)), key=len, reverse=True):
+            self.gt_del(k, cur[k] is None)
+            repairs += 1
+        for k in sorted(want, key=len):
+            if k not in cur or cur[k] != want[k] or (want[k] is None) != (cur.get(k, ABSENT) is None):
+                self.gt_put(k, want[k])
+                repairs += 1
+        if repairs > 3 and self.snapshot() != self.pristine:
+            raise RuntimeError("harness: could not restore the ground truth of world %r" % type(self).__name__)
+
+    def close(self):
+        pass
+
+
+def mem_tree(mem, pre, out):
+    """Ground-truth reader for a MemoryFS: its directory-entry tree, read directly."""
+    def rec(entry, prefix):
+        for name, e in list(entry._dir.items()):
+            k = prefix + name
+            if e.is_dir:
+                out[k] = None
+                rec(e, k + "/")
+            else:
+                out[k] = e._bytes_file.getvalue()
+    rec(mem.root, pre)
+
+
+class MemWorld(World):
+    """SubFS chain of `depth` levels over a recording WrapFS over a MemoryFS; with mount=True the chain starts at a
+    MountFS whose mount points m0 / m1 hold two recording members (box[0] is then the mount point); with
+    via_mountfs_root the MountFS itself is the filesystem under test and the targets live below m0."""
+
+    def __init__(self, env, depth, mount=False, via_mountfs_root=False):
+        from fs.memoryfs import MemoryFS
+        self.log = env["log"]
+        self.mount = mount
+        if mount:
+            from fs.mountfs import MountFS
+            self.members = [MemoryFS(), MemoryFS()]
+            box = ("m0",) + tuple("s%d" % i for i in range(depth))
+            for i, mem in enumerate(self.members):
+                for lv in levels_of(box[1:]):
+                    for comps, content in subtree_entries(("m%d" % i,) + lv):
+                        mem.makedirs("/".join(comps[1:-1]), recreate=True)
+                        mem.writebytes("/".join(comps[1:]), content)
+            top = MountFS()
+            top.mount("m0", env["rec"][0](self.members[0]))
+            top.mount("m1", env["rec"][1](self.members[1]))
+        else:
+            box = tuple("s%d" % i for i in range(depth))
+            self.members = [MemoryFS()]
+            for lv in levels_of(box):
+                for comps, content in subtree_entries(lv):
+                    self.members[0].makedirs("/".join(comps[:-1]), recreate=True)
+                    self.members[0].writebytes("/".join(comps), content)
+            top = env["rec"][0](self.members[0])
+        self.top = top
+        f = top
+        for sname in (() if via_mountfs_root else box):
+            f = f.opendir(sname)
+        self.fs = f
+        self.box = () if via_mountfs_root else box
+        self.tprefix = ("m0",) if via_mountfs_root else ()
+        self.pristine = self.snapshot()
+        del self.log[:]
+
+    def snapshot(self):
+        out = {}
+        for i, mem in enumerate(self.members):
+            if self.mount:
+                out["m%d" % i] = None
+            mem_tree(mem, "m%d/" % i if self.mount else "", out)
+        return out
+
+    def _member(self, key):
+        if not self.mount:
+            return self.members[0], key
+        head, _sep, rest = key.partition("/")
+        return self.members[int(head[1:])], rest
+
+    def gt_del(self, key, isdir):
+        mem, k = self._member(key)
+        if k and mem.exists(k):
+            (mem.removetree if mem.isdir(k) else mem.remove)(k)
+
+    def gt_put(self, key, content):
+        mem, k = self._member(key)
+        if not k:
+            return
+        if content is None:
+            mem.makedirs(k, recreate=True)
+        else:
+            mem.writebytes(k, content)
+
+    def escaped(self, D):
+        import fs.path as P
+        want = "/" + "/".join(D[1:] if self.mount else D)
+        out = []
+        for ident, meth, got in self.log:
+            if self.mount and ident != 0:
+                out.append(("m%d:%s" % (ident, meth), got))
+                continue
+            try:
+                n = P.abspath(P.normpath(got))
+            except Exception:
+                out.append((meth, got))
+                continue
+            if not P.isbase(want, n):
+                out.append((meth, got))
+        return out
+
+    def close(self):
+        for mem in self.members:
+            mem.close()
+
+
+class OSWorld(World):
+    """A directory tree on the real file system with os/io/shutil/scandir of fs.osfs logged. mode 'osfs': OSFS opened on
+    top/<box>; mode 'subfs': OSFS(top) then an opendir chain down to <box>; mode 'tempfs': TempFS(temp_dir=top/outer)."""
+
+    def __init__(self, env, mode, depth):
+        from fs.osfs import OSFS
+        self.log = env["syslog"]
+        env["n"] += 1
+        self.os_top = top = os.path.join(env["base"], "w%d" % env["n"])
+        os.makedirs(top)
+        if mode == "tempfs":
+            from fs.tempfs import TempFS
+            os.makedirs(os.path.join(top, "outer"))
+            self.base_fs = TempFS(temp_dir=os.path.join(top, "outer"))
+            box = ("outer", os.listdir(os.path.join(top, "outer"))[0])
+        else:
+            box = tuple("s%d" % i for i in range(depth))
+        for lv in levels_of(box):
+            for comps, content in subtree_entries(lv):
+                os.makedirs(os.path.join(top, *comps[:-1]), exist_ok=True)
+                with open(os.path.join(top, *comps), "wb") as fh:
+                    fh.write(content)
+        if mode == "osfs":
+            self.base_fs = self.fs = OSFS(os.path.join(top, *box))
+        elif mode == "tempfs":
+            self.fs = self.base_fs
+        else:
+            self.base_fs = f = OSFS(top)
+            for sname in box:
+                f = f.opendir(sname)
+            self.fs = f
+        self.box = box
+        self.pristine = self.snapshot()
+        del self.log[:]
+
+    def snapshot(self):
+        return os_snapshot(self.os_top)
+
+    def gt_del(self, key, isdir):
+        q = os.path.join(self.os_top, *key.split("/"))
+        if os.path.isdir(q) and not os.path.islink(q):
+            shutil.rmtree(q)
+        elif os.path.lexists(q):
+            os.remove(q)
+
+    def gt_put(self, key, content):
+        q = os.path.join(self.os_top, *key.split("/"))
+        if content is None:
+            os.makedirs(q, exist_ok=True)
+        else:
+            with open(q, "wb") as fh:
+                fh.write(content)
+
+    def escaped(self, D):
+        return os_escaped(self.log, os.path.join(self.os_top, *D))
+
+    def url(self):
+        return "osfs://" + os.path.join(self.os_top, *self.box)
+
+    def close(self):
+        try:
+            self.base_fs.close()
+        except Exception:  # noqa
+            pass
+
+
+def os_snapshot(top):
+    out = {}
+    n = len(top) + 1
+    for r, dirs, files in os.walk(top):
+        rel = r[n:].replace(os.sep, "/")
+        rel = rel + "/" if rel else ""
+        for d in dirs:
+            out[rel + d] = None
+        for f in files:
+            with open(os.path.join(r, f), "rb") as fh:
+                out[rel + f] = fh.read()
+    return out
+
+
+def os_escaped(log, allowed):
+    a1, a2 = os.path.normpath(allowed), os.path.realpath(allowed)
+    out = []
+    for fn, sp in log:
+        n = os.path.normpath(sp)
+        if not (n == a1 or n.startswith(a1 + os.sep) or n == a2 or n.startswith(a2 + os.sep)):
+            out.append((fn, sp))
+    return out
+
+
+class ArchiveWorld(World):
+    """A read-only zip / tar archive holding the decoy tree (levels: archive root, s0, s0-private)."""
+    readonly = True
+    log = []
+
+    def __init__(self, env, kind, depth):
+        from fs.zipfs import ZipFS
+        from fs.tarfs import TarFS
+        self.path = env["archives"][kind]
+        self.kind = kind
+        self.base_fs = f = (ZipFS if kind == "zip" else TarFS)(self.path)
+        box = ("s0",)[:depth]
+        for sname in box:
+            f = f.opendir(sname)
+        self.fs, self.box = f, box
+        self.pristine = env["archive_gt"]
+
+    def snapshot(self):
+        return self.pristine
+
+    def escaped(self, D):
+        return []
+
+    def url(self):
+        return "%s://%s" % (self.kind, self.path) + ("!/" + "/".join(self.box) if self.box else "")
+
+    def close(self):
+        try:
+            self.base_fs.close()
+        except Exception:  # noqa
+            pass
+
+
+def build_archives(env):
+    import zipfile
+    import tarfile
+    entries = {}
+    for lv in levels_of(("s0",)):
+        for comps, content in subtree_entries(lv):
+            for i in range(1, len(comps)):
+                entries["/".join(comps[:i])] = None
+            entries["/".join(comps)] = content
+    zp, tp = os.path.join(env["base"], "tree.zip"), os.path.join(env["base"], "tree.tar")
+    with zipfile.ZipFile(zp, "w") as z:
+        for k in sorted(entries):
+            if entries[k] is not None:
+                z.writestr(k, entries[k])
+    with tarfile.open(tp, "w") as t:
+        for k in sorted(entries):
+            ti = tarfile.TarInfo(k)
+            if entries[k] is None:
+                ti.type = tarfile.DIRTYPE
+                t.addfile(ti)
+            else:
+                ti.size = len(entries[k])
+                t.addfile(ti, io.BytesIO(entries[k]))
+    env["archives"] = dict(zip=zp, tar=tp)
+    env["archive_gt"] = entries
+
+
+class logged_osfs(object):
+    """Context manager: os / io / shutil / scandir of fs.osfs (and shutil / tempfile of fs.tempfs) replaced by logging
+    proxies writing into `log`."""
+    def __init__(self, log):
+        self.log, self.saved = log, []
+
+    def __enter__(self):
+        import fs.osfs as mod
+        import fs.tempfs as tmod
+        log = self.log
+        for m, names in ((mod, ("os", "io", "shutil")), (tmod, ("shutil", "tempfile"))):
+            for name in names:
+                if hasattr(m, name):
+                    self.saved.append((m, name, getattr(m, name)))
+                    setattr(m, name, Logger(getattr(m, name), log, name))
+        if getattr(mod, "scandir", None) is not None:
+            real_scandir = mod.scandir
+            self.saved.append((mod, "scandir", real_scandir))
+
+            def scandir_logged(p):
+                t = _text(os.fspath(p))
+                log.append(("scandir", t if t.startswith(os.sep) else os.path.abspath(t)))
+                return real_scandir(p)
+            mod.scandir = scandir_logged
+        return self
+
+    def __exit__(self, *exc):
+        for m, name, v in reversed(self.saved):
+            setattr(m, name, v)
+        return False
+
+
+def subfs_apis():
+    """The public FS methods that hand back a filesystem object, found by calling every single-path method on a
+    scratch MemoryFS (existing and new directory), with the keyword variants their signatures offer:
+    (label, method, kwargs, wants) with wants in 'existing' / 'new' / 'both'."""
+    from fs.base import FS
+    from fs.memoryfs import MemoryFS
+    from fs.subfs import SubFS, ClosingSubFS
+    out = []
+    for (m, params, positions) in public_methods():
+        if len(positions) != 1 or "." in m:
+            continue
+        hit = {}
+        for label, path in (("existing", "data"), ("new", "fresh")):
+            scratch = MemoryFS()
+            scratch.makedirs("data")
+            try:
+                hit[label] = isinstance(getattr(scratch, m)(*build_args(params, positions, positions[0], path)), FS)
+            except Exception:  # noqa
+                hit[label] = False
+            scratch.close()
+        if not (hit["existing"] or hit["new"]):
+            continue
+        base_wants = "existing" if not hit["new"] else "new"
+        out.append((m, m, {}, base_wants))
+        if "factory" in params:
+            out.append((m + "(factory=SubFS)", m, dict(factory=SubFS), base_wants))
+            out.append((m + "(factory=ClosingSubFS)", m, dict(factory=ClosingSubFS), base_wants))
+        if "recreate" in params:
+            out.append((m + "(recreate=True)", m, dict(recreate=True), "both"))
+    return out
+
+
+def check_returned(w, X, D, ctx, deep=None, gt0=None):
+    """The containment battery on an object X returned by a call, which must denote directory D (components in the
+    world's ground-truth namespace): everything it discloses, reads, creates, modifies or deletes lies inside D.
+    Returns (findings, number of calls made, last snapshot taken or None)."""
+    bad = []
+    D = tuple(D)
+    if gt0 is None:
+        gt0 = w.snapshot()
+    ncalls = [0]
+    last = None
+
+    def note(why, **kw):
+        c = dict(ctx)
+        c.update(kw)
+        c["denotes"] = "/" + "/".join(D)
+        bad.append((why, c))
+
+    def step(name, *a):
+        del w.log[:]
+        ncalls[0] += 1
+        try:
+            res = ("ok", consume(resolve(X, name)(*a), exercise=False))
+        except Exception as e:  # noqa
+            res = ("exc", e)
+        esc = w.escaped(D)
+        if esc:
+            note("an object returned by a call reached outside the directory it denotes", op=name, args=repr(a)[:80],
+                 received=esc[:4])
+        return res
+
+    def key(*more):
+        return "/".join(D + tuple(more))
+
+    expected = sorted(set(k.split("/")[len(D)] for k in gt0 if under(k, D) and len(k.split("/")) > len(D)))
+    st, v = step("listdir", "/")
+    if st == "ok" and sorted(v) != expected:
+        note("a returned filesystem lists another directory than the one its path denotes", listed=sorted(v)[:8],
+             expected=expected[:8])
+    st, v = step("readbytes", "marker")
+    if st == "ok" and v != gt0.get(key("marker")):
+        note("a returned filesystem discloses a file outside the directory its path denotes", got=repr(v),
+             expected=repr(gt0.get(key("marker"))))
+    for name in DECOY_NAMES:
+        st, v = step("exists", name)
+        if st == "ok" and v != (key(name) in gt0):
+            note("a returned filesystem answers for a resource outside the directory its path denotes", name=name, got=v)
+    st, v = step("getsyspath", "/")
+    if st == "ok" and w.os_top is not None:
+        want = os.path.realpath(os.path.join(w.os_top, *D))
+        if os.path.realpath(v) != want:
+            note("a returned filesystem discloses a system path outside the directory its path denotes", got=v, expected=want)
+    if not w.readonly:
+        wst, _v = step("writebytes", "probe.bin", b"probe")
+        step("makedirs", "pd/q")
+        if key("marker") in gt0:
+            step("appendbytes", "marker", b"+")
+        gt1 = w.snapshot()
+        out = diff_outside(gt0, gt1, D)
+        if out:
+            note("a returned filesystem created or modified something outside the directory its path denotes", changed=out[:6])
+        elif wst == "ok" and gt1.get(key("probe.bin")) != b"probe":
+            note("a write through a returned filesystem did not land in the directory its path denotes",
+                 found=[k for k in gt1 if k.endswith("probe.bin")][:4])
+        step("remove", "probe.bin")
+        step("removetree", "pd")
+        step("remove", "../marker")
+        step("removetree", "../data")
+        if deep is None:
+            last = w.snapshot()
+            out = diff_outside(gt0, last, D)
+            if out:
+                note("a returned filesystem deleted something outside the directory its path denotes", changed=out[:6])
+    if deep is not None:
+        methods, paths = deep
+        for (m, params, positions) in methods:
+            for which in positions:
+                for p in paths:
+                    step(m, *build_args(params, positions, which, p, safe="marker"))
+        if not w.readonly:
+            last = w.snapshot()
+            out = diff_outside(gt0, last, D)
+            if out:
+                note("the method battery on a returned filesystem changed something outside the directory it denotes",
+                     changed=out[:6])
+    return bad, ncalls[0], last
+
+
+def world_kinds(thorough):
+    """(name, factory, chained): chained = also sweep the APIs on results of opendir on it."""
+    kinds = [("SubFS^1/mem", lambda env: MemWorld(env, 1), True), ("SubFS^2/mem", lambda env: MemWorld(env, 2), thorough),
+             ("OSFS", lambda env: OSWorld(env, "osfs", 2), True), ("SubFS^1/OSFS", lambda env: OSWorld(env, "subfs", 1), thorough),
+             ("MountFS", lambda env: MemWorld(env, 0, mount=True, via_mountfs_root=True), True),
+             ("SubFS^1/MountFS", lambda env: MemWorld(env, 0, mount=True), thorough),
+             ("ZipFS", lambda env: ArchiveWorld(env, "zip", 0), True),
+             ("SubFS^1/TarFS", lambda env: ArchiveWorld(env, "tar", 1), thorough),
+             ("TempFS", lambda env: OSWorld(env, "tempfs", 0), thorough)]
+    if thorough:
+        kinds += [("SubFS^3/mem", lambda env: MemWorld(env, 3), True), ("SubFS^2/OSFS", lambda env: OSWorld(env, "subfs", 2), True),
+                  ("SubFS^2/MountFS", lambda env: MemWorld(env, 1, mount=True), True),
+                  ("SubFS^1/ZipFS", lambda env: ArchiveWorld(env, "zip", 1), True),
+                  ("TarFS", lambda env: ArchiveWorld(env, "tar", 0), True)]
+    return kinds
+
+
+def run_returned(rnd, thorough, seed):
+    """Sub-filesystems obtained through every API that returns one x every spelling class x every backend kind (and the
+    same again on a result of opendir), each put through check_returned."""
+    import fs.opener
+    results, bad = [], []
+    env = dict(log=[], syslog=[], n=0, base=os.path.realpath(tempfile.mkdtemp(prefix="pyfs2verif_", dir=fast_tmp())))
+    env["rec"] = [make_recording(env["log"], 0), make_recording(env["log"], 1)]
+    apis = subfs_apis()
+    methods = public_methods()
+    all_texts = [t for tg in EXISTING_TARGETS + NEW_TARGETS for _c, t in spellings(tg)]
+    denote = model_denotations(all_texts)
+    model_mismatch = []
+    for tg in EXISTING_TARGETS + NEW_TARGETS:
+        for c, t in spellings(tg):
+            if denote.get(t) != tuple(tg):
+                model_mismatch.append((c, t, denote.get(t)))
+    cov = dict(apis=[a[0] for a in apis] + ["opener.open(url!path)+opendir"], kinds=[],
+               spelling_classes=sorted(set(c for tg in EXISTING_TARGETS + NEW_TARGETS for c, _t in spellings(tg))),
+               objects_checked=0, objects_deep=0, calls_on_returned=0, raised_instead=0, url_objects=0,
+               chained_objects=0, spellings_confirmed_by_model=len(all_texts) - len(model_mismatch))
+    if model_mismatch:
+        bad.append(("a spelling does not denote the intended directory according to Sandbox.v (harness/model disagreement)",
+                    dict(examples=model_mismatch[:4])))
+
+    def cases_for(wants, salt):
+        """(target, class, text): every class for every target (thorough) or every class once, targets rotating (quick)."""
+        targets = {"existing": EXISTING_TARGETS, "new": NEW_TARGETS, "both": EXISTING_TARGETS + NEW_TARGETS}[wants]
+        triples = [(tg, c, t) for tg in targets for c, t in spellings(tg)]
+        if thorough:
+            return triples
+        by_class = {}
+        for tg, c, t in triples:
+            by_class.setdefault(c, []).append((tg, c, t))
+        return [by_class[c][(i + salt + seed) % len(by_class[c])] for i, c in enumerate(sorted(by_class))]
+
+    def one(w, kind, label, cls, arg, D, get, via=None, deep_ok=True):
+        """Obtain an object with get() and put it through the battery; the world is restored afterwards."""
+        gt0 = w.pristine
+        there = lambda comps: not comps or "/".join(comps) in gt0  # noqa: E731
+        fresh = D[-1:] == ("new",)
+        if (fresh and (there(D) or not there(D[:-1]))) or (not fresh and not there(D)):
+            return
+        del w.log[:]
+        last = None
+        try:
+            try:
+                X = get()
+            except Exception as e:  # noqa
+                cov["raised_instead"] += 1
+                results.append((kind, label, cls, "exc:" + type(e).__name__, 0))
+                return
+            if fresh:      # the directory the call was asked to create belongs to the baseline
+                gt0 = dict(gt0)
+                gt0["/".join(D)] = None
+            deep = None
+            if deep_ok and (rnd.random() < (0.2 if thorough else 0.015)):
+                deep = (methods, PROBE_PATHS if thorough else PROBE_PATHS[::2])
+                cov["objects_deep"] += 1
+            b, n, last = check_returned(w, X, D, dict(fs=kind, api=label, spelling_class=cls, path=arg, via=via),
+                                        deep=deep, gt0=gt0)
+            bad.extend(b)
+            cov["objects_checked"] += 1
+            cov["calls_on_returned"] += n
+            results.append((kind, label, cls, "bad" if b else "ok", n))
+        finally:
+            w.restore(last)
+
+    try:
+        build_archives(env)
+        with logged_osfs(env["syslog"]):
+            for kind, factory, chained in world_kinds(thorough):
+                cov["kinds"].append(kind)
+                w = factory(env)
+                try:
+                    # the filesystem under test itself, then results of opendir on it (chained)
+                    stems = [((), None)]
+                    if chained:
+                        for t1 in ((), ("data",)):
+                            sp = spellings(t1)
+                            stems += [(t1, x) for x in (sp[::3] if thorough else [sp[rnd.randrange(len(sp))]])]
+                    def stem(ww, t1, s1):
+                        F, box, pre = ww.fs, tuple(ww.box), tuple(ww.tprefix)
+                        if s1 is not None:
+                            F = F.opendir("/".join(pre) + "/" + s1[1] if pre else s1[1])
+                            box, pre = box + pre + tuple(t1), ()
+                        return F, box, pre
+
+                    for si, (t1, s1) in enumerate(stems):
+                        try:
+                            F, box, pre = stem(w, t1, s1)
+                        except Exception:  # noqa
+                            cov["raised_instead"] += 1
+                            continue
+                        for ai, (label, m, kwargs, wants) in enumerate(apis):
+                            cases = cases_for(wants, ai + si)
+                            if s1 is not None and not thorough:
+                                cases = cases[(ai + seed) % 3::3]
+                            # an object that closes its parent when it is dropped gets a world of its own
+                            closing = any(getattr(v, "__name__", "").startswith("Closing") for v in kwargs.values())
+                            for (tg, cls, text) in cases:
+                                arg = ("/".join(pre) + "/" + text) if pre else text
+                                before = cov["objects_checked"]
+                                ww, FF = w, F
+                                if closing:
+                                    ww = factory(env)
+                                    FF = stem(ww, t1, s1)[0]
+                                try:
+                                    one(ww, kind, label, cls, arg, box + pre + tuple(tg),
+                                        lambda: getattr(FF, m)(arg, **kwargs),
+                                        via=None if s1 is None else "opendir(%r)" % s1[1])
+                                finally:
+                                    if closing:
+                                        ww.close()
+                                if s1 is not None:
+                                    cov["chained_objects"] += cov["objects_checked"] - before
+                    # a URL with a sub-path: opener.open() hands back (filesystem, path) for the caller to open
+                    if hasattr(w, "url"):
+                        for (tg, cls, text) in cases_for("existing", 0):
+                            url = w.url() + ("!" + text if "!" not in w.url() else "/" + text)
+                            opened = []
+
+                            def get():
+                                f, sub = fs.opener.open(url, writeable=not w.readonly)
+                                opened.append(f)
+                                return f.opendir(sub) if sub else f
+                            before = cov["objects_checked"]
+                            one(w, kind, "opener.open(url!path)+opendir", cls, url, tuple(w.box) + tuple(tg), get, deep_ok=False)
+                            cov["url_objects"] += cov["objects_checked"] - before
+                            for f in opened:
+                                try:
+                                    f.close()
+                                except Exception:  # noqa
+                                    pass
+                finally:
+                    w.close()
+    finally:
+        shutil.rmtree(env["base"], ignore_errors=True)
+    return results, bad, cov
+
+
+# --------------------------------------------------------------------------- round 3: constructor arguments x process state
+STATE_VARS = ("HOME", "PYFS2V_ROOT", "PYFS2V_REL")
+# (working directory below the side directory, root spelling); ABS/x stands for <top>/x
+ROOT_CASES = [("", "jail"), ("", "./jail"), ("", "zz/../jail"), ("", "jail/"), ("", "jail//data/.."), ("jail", "."),
+              ("jail", ""), ("jail", "../jail"), ("jail/data", ".."), ("", "~/jail"), ("jail", "~"),
+              ("", "$PYFS2V_ROOT/jail"), ("", "${PYFS2V_ROOT}/jail"), ("", "$PYFS2V_REL"), ("", "./$PYFS2V_REL/"),
+              ("", "ABS/A/jail"), ("", "ABS/B/../A/jail/")]
+NEW_ROOT_CASES = [("", "newjail"), ("", "./deep/newjail/"), ("jail", "../newjail2")]
+URL_CASES = [("", "osfs://jail", None), ("", "jail", None), ("", "file://./jail", None), ("", "osfs://zz/../jail/", None),
+             ("jail", "osfs://.", None), ("", "osfs://~/jail", None), ("", "osfs://.", "jail"), ("", "osfs://jail", "."),
+             ("", "osfs://data", "./jail"), ("", "osfs://ABS/A/jail", None), ("jail", "osfs://jail", "ABS/A"),
+             ("", "osfs://jail!data", None)]
+NEW_URL_CASES = [("", "osfs://newjail3", None), ("", "osfs://newjail4", "jail")]
+TEMP_DIR_CASES = [("", "tmpd"), ("", "./tmpd"), ("tmpd", "."), ("", "jail/../tmpd"), ("", "ABS/A/tmpd")]
+
+
+def keyword_space(f, special=()):
+    """By reflection: the keyword parameters of a constructor / opener and the values to drive them with
+    (booleans: both; an integer mode: the default and a stricter one); the others are returned as unvaried."""
+    space, unvaried = {}, []
+    params = list(inspect.signature(f).parameters.values())
+    for prm in params:
+        if prm.name == "self" or prm.default is inspect.Parameter.empty or prm.name in special:
+            continue
+        d = prm.default
+        if isinstance(d, bool):
+            space[prm.name] = [d, not d]
+        elif isinstance(d, int) and "mode" in prm.name:
+            space[prm.name] = [d, 0o700]
+        else:
+            unvaried.append(prm.name)
+    return space, unvaried
+
+
+def keyword_combos(space, thorough, salt):
+    names = sorted(space)
+    bools = [n for n in names if isinstance(space[n][0], bool)]
+    others = [n for n in names if n not in bools]
+    out = []
+    for i, combo in enumerate(itertools.product(*[space[n] for n in bools])):
+        kw = dict(zip(bools, combo))
+        if thorough:
+            for rest in itertools.product(*[space[n] for n in others]):
+                k2 = dict(kw)
+                k2.update(zip(others, rest))
+                out.append(k2)
+        else:
+            for j, n in enumerate(others):
+                kw[n] = space[n][(i + j + salt) % len(space[n])]
+            out.append(kw)
+    return out
+
+
+class StateWorld(OSWorld):
+    """Two mirrored working directories A and B (same names, different markers), two home directories, and the process
+    state (cwd, HOME, $PYFS2V_ROOT, $PYFS2V_REL) switched between construction (side A) and use (side B)."""
+    box = ()
+
+    def __init__(self, env):
+        self.log = env["syslog"]
+        env["n"] += 1
+        self.os_top = os.path.join(env["base"], "c%d" % env["n"])
+        os.makedirs(self.os_top)
+        for side in ("A", "B"):
+            for comps in ((side,), (side, "jail")):
+                self.plant(comps)
+        self.pristine = self.snapshot()
+
+    def prepare(self, cwd_rel, spelled):
+        """Plant the decoy subtree in every directory the spelling can denote: literally / expanded, in the state of
+        the construction (side A) and in the state of the use (side B)."""
+        for side in ("B", "A"):
+            self.state(side, cwd_rel)
+            for c in self.denotations(spelled).values():
+                if c is not None:
+                    self.plant(c)
+        self.pristine = self.snapshot()
+
+    def plant(self, comps):
+        for c, content in subtree_entries(comps):
+            q = os.path.join(self.os_top, *c)
+            if not os.path.exists(q):
+                os.makedirs(os.path.dirname(q), exist_ok=True)
+                with open(q, "wb") as fh:
+                    fh.write(content)
+
+    def state(self, side, cwd_rel):
+        os.chdir(os.path.join(self.os_top, side, *[c for c in cwd_rel.split("/") if c]))
+        os.environ["HOME"] = os.path.join(self.os_top, "home" + side)
+        os.environ["PYFS2V_ROOT"] = os.path.join(self.os_top, side)
+        os.environ["PYFS2V_REL"] = "jail" if side == "A" else "sub"
+
+    def comps(self, abs_path):
+        n = os.path.normpath(abs_path)
+        if n == self.os_top:
+            return ()
+        if not n.startswith(self.os_top + os.sep):
+            return None
+        return tuple(n[len(self.os_top) + 1:].split(os.sep))
+
+    def denotations(self, text):
+        """What a root spelling denotes in the CURRENT process state, by Python's os.path (the reference):
+        literally, with '~' expanded, with '~' and variables expanded."""
+        return dict(literal=self.comps(os.path.abspath(text)), user=self.comps(os.path.abspath(os.path.expanduser(text))),
+                    full=self.comps(os.path.abspath(os.path.expanduser(os.path.expandvars(text)))))
+
+
+def run_ctor_state(rnd, thorough, seed):
+    """OSFS / TempFS / osfs:// opener keyword arguments (by reflection) x relative, '~' and '$VAR' root spellings; the
+    working directory, HOME and the variables change between construction and use; the containment battery then runs
+    against the directory the root denoted at construction time (system-call log + whole-tree snapshot + markers)."""
+    import pathlib
+    import fs.opener
+    from fs.osfs import OSFS
+    from fs.tempfs import TempFS
+    results, bad = [], []
+    env = dict(syslog=[], n=0, base=os.path.realpath(tempfile.mkdtemp(prefix="pyfs2verif_", dir=fast_tmp())))
+    methods = public_methods()
+    saved_cwd = os.getcwd()
+    saved_env = dict((k, os.environ.get(k)) for k in STATE_VARS)
+    osfs_space, osfs_unvaried = keyword_space(OSFS.__init__, special=("root_path",))
+    open_space, open_unvaried = keyword_space(fs.opener.registry.open_fs, special=("cwd", "default_protocol"))
+    temp_space, temp_unvaried = keyword_space(TempFS.__init__, special=("temp_dir", "identifier"))
+    cov = dict(osfs_keywords=sorted(osfs_space), opener_keywords=sorted(open_space) + ["cwd", "default_protocol"],
+               tempfs_keywords=sorted(temp_space) + ["temp_dir", "identifier"],
+               unvaried_keywords=osfs_unvaried + open_unvaried + temp_unvaried,
+               root_spellings=len(ROOT_CASES) + len(NEW_ROOT_CASES), url_spellings=len(URL_CASES) + len(NEW_URL_CASES),
+               constructions=0, constructions_refused=0, calls_after_state_change=0, sub_objects_checked=0,
+               deep_batteries=0, tilde_expanded_although_expand_vars_false=0, root_argument_types=set())
+
+    def absify(w, text):
+        return text.replace("ABS/", w.os_top + "/")
+
+    def note(why, **ctx):
+        bad.append((why, ctx))
+
+    def drive(w, label, cwd_rel, spelled, admissible, build, kw, subpath=(), with_sub=True):
+        """build() under state A; identify the root; switch to state B; battery; restore."""
+        w.state("A", cwd_rel)
+        den = w.denotations(spelled)
+        cands = [den[k] for k in admissible if den[k] is not None]
+        ctx = dict(constructor=label, root=spelled, keywords=repr(kw), cwd_at_construction="A/" + cwd_rel)
+        F = None
+        try:
+            del w.log[:]
+            try:
+                F = build()
+            except Exception as e:  # noqa
+                cov["constructions_refused"] += 1
+                results.append((label, spelled, "exc:" + type(e).__name__, 0))
+                if not is_fs_error(e):
+                    results.append((label, spelled, "crash:" + type(e).__name__, 0))
+                return
+            cov["constructions"] += 1
+            gt0 = w.snapshot()
+            # (OSFS.__init__ probes case sensitivity with a NamedTemporaryFile in the system temp directory: a fixed
+            # probe, not driven by any path argument - exempted here, at construction time only)
+            systmp = os.path.realpath(tempfile.gettempdir())
+            esc = [x for x in w.log if all(os_escaped([x], os.path.join(w.os_top, *c)) for c in cands)
+                   and not any(os.path.join(w.os_top, *c).startswith(os.path.normpath(x[1]) + os.sep) for c in cands)
+                   and os.path.dirname(os.path.realpath(x[1])) != systmp]
+            if esc:
+                note("constructing a filesystem touched system paths outside the directory its root argument denotes",
+                     received=esc[:4], **ctx)
+            # which directory did it open?  markers name the directory they live in
+            D = None
+            try:
+                mk = F.readbytes("marker")
+                hits = [k for k, v in gt0.items() if v == mk and k.endswith("marker")]
+                D = tuple(hits[0].split("/")[:-1]) if len(hits) == 1 else None
+            except Exception:  # noqa
+                created = sorted(k for k in gt0 if k not in w.pristine)
+                for c in cands:
+                    if "/".join(c) in created:
+                        D = c
+            if D is not None and subpath:
+                D = D[:-len(subpath)] if D[-len(subpath):] == tuple(subpath) else D
+            if D is None or D not in cands:
+                note("a filesystem was constructed on another directory than its root argument denotes",
+                     opened=D, admissible=cands, **ctx)
+                if D is None:
+                    return
+            if D == den.get("user") and D != den.get("literal") and "literal" in admissible and "full" not in admissible:
+                cov["tilde_expanded_although_expand_vars_false"] += 1
+            outside = diff_outside(w.pristine, gt0, D)
+            outside = [k for k in outside if not "/".join(D).startswith(k + "/")]
+            if outside:
+                note("constructing a filesystem changed something outside the directory its root argument denotes",
+                     changed=outside[:6], **ctx)
+            # an object obtained before the state changes must stay anchored too
+            Xb = None
+            try:
+                Xb = F.opendir("data") if not subpath else None
+            except Exception:  # noqa
+                pass
+            w.state("B", cwd_rel)
+            ctx["denoted_at_construction"] = "/" + "/".join(D)
+            deep = None
+            if thorough or rnd.random() < 0.06:
+                deep = (methods, PROBE_PATHS if thorough else PROBE_PATHS[::2])
+                cov["deep_batteries"] += 1
+            c2 = dict(ctx, fs=label, api="constructor, then chdir / HOME / variables changed")
+            b, n, last = check_returned(w, F, D + tuple(subpath), c2, deep=deep, gt0=gt0)
+            b = [("after the working directory / environment changed, " + why, c) for why, c in b]
+            bad.extend(b)
+            cov["calls_after_state_change"] += n
+            results.append((label, spelled, "bad" if b else "ok", n))
+            if not subpath and with_sub:
+                w.restore(last)
+                for which, X in (("opendir before the change", Xb), ("opendir after the change", None)):
+                    try:
+                        X = X if X is not None else F.opendir("/data")
+                    except Exception:  # noqa
+                        continue
+                    if "/".join(D + ("data",)) not in w.pristine:
+                        continue
+                    b, n, last = check_returned(w, X, D + ("data",), dict(c2, api=which), gt0=w.pristine)
+                    bad.extend(("after the working directory / environment changed, " + why, c) for why, c in b)
+                    cov["sub_objects_checked"] += 1
+                    cov["calls_after_state_change"] += n
+                    w.restore(last)
+        finally:
+            try:
+                if F is not None:
+                    F.close()
+            except Exception:  # noqa
+                pass
+            w.state("A", "")
+            w.restore()
+
+    def new_world(cwd_rel, spelled):
+        w = StateWorld(env)
+        if "new" not in spelled:
+            w.prepare(cwd_rel, spelled)
+        return w
+
+    try:
+        with logged_osfs(env["syslog"]):
+            # ---- OSFS(root, **keywords)
+            for ci, (cwd_rel, text) in enumerate(ROOT_CASES + NEW_ROOT_CASES):
+                w = new_world(cwd_rel, text)
+                for ki, kw in enumerate(keyword_combos(osfs_space, thorough, ci + seed)):
+                    with_sub = thorough or (ci + ki + seed) % 2 == 0
+                    if "new" in text and not kw.get("create"):
+                        if (ci + ki + seed) % 2:
+                            continue
+                    spelled = absify(w, text)
+                    typ = (str, bytes, str, pathlib.Path)[(ci + ki + seed) % 4] if not thorough else None
+                    for t in ([typ] if typ else [str, bytes, pathlib.Path]):
+                        arg = spelled.encode() if t is bytes else (pathlib.Path(spelled) if t is pathlib.Path else spelled)
+                        if t is pathlib.Path and spelled in ("", ):
+                            arg = spelled
+                        cov["root_argument_types"].add(t.__name__)
+                        admissible = ("full",) if kw.get("expand_vars", True) else ("literal", "user")
+                        drive(w, "OSFS", cwd_rel, str(arg) if t is pathlib.Path else spelled, admissible,
+                              lambda: OSFS(arg, **kw), kw, with_sub=with_sub)
+            # ---- open_fs(url, cwd=..., **keywords)
+            for ci, (cwd_rel, url, cwd_kw) in enumerate(URL_CASES + NEW_URL_CASES):
+                w = None
+                for ki, kw in enumerate(keyword_combos(open_space, thorough, ci + seed)):
+                    if "new" in url and not kw.get("create"):
+                        continue
+                    if w is None:
+                        w = StateWorld(env)
+                    u = absify(w, url)
+                    kw2 = dict(kw)
+                    if cwd_kw is not None:
+                        kw2["cwd"] = absify(w, cwd_kw)
+                    if "://" not in u and (ci + ki) % 2:
+                        kw2["default_protocol"] = "file"
+                    resource, _bang, sub = u.split("://", 1)[-1].partition("!")
+                    # documented: the resource is taken relative to `cwd` (default: the process working directory)
+                    # (a resource starting with '~' is expanded first and is then absolute)
+                    spelled = resource if resource.startswith("~") else os.path.join(kw2.get("cwd", "."), resource)
+                    subpath = tuple(c for c in sub.split("/") if c)
+                    if "new" not in url and ki == 0:
+                        w.prepare(cwd_rel, spelled)
+
+                    def build():
+                        f, pth = fs.opener.registry.open(u, **kw2) if subpath else (fs.opener.open_fs(u, **kw2), None)
+                        return f.opendir(pth) if pth else f
+                    drive(w, "open_fs", cwd_rel, spelled, ("full",), build, dict(kw2, url=u), subpath=subpath,
+                          with_sub=thorough or (ci + ki + seed) % 2 == 0)
+            # ---- TempFS(temp_dir=..., **keywords)
+            for ci, (cwd_rel, text) in enumerate(TEMP_DIR_CASES):
+                w = StateWorld(env)
+                w.plant(("A", "tmpd"))
+                w.plant(("B", "tmpd"))
+                w.pristine = w.snapshot()
+                for ki, kw in enumerate(keyword_combos(temp_space, thorough, ci + seed)):
+                    spelled = absify(w, text)
+                    kw2 = dict(kw, temp_dir=spelled)
+                    if (ci + ki) % 2:
+                        kw2["identifier"] = "id"
+                    ctx = dict(constructor="TempFS", keywords=repr(kw2), cwd_at_construction="A/" + cwd_rel)
+                    w.state("A", cwd_rel)
+                    T = None
+                    try:
+                        del w.log[:]
+                        try:
+                            T = TempFS(**kw2)
+                        except Exception as e:  # noqa
+                            cov["constructions_refused"] += 1
+                            results.append(("TempFS", text, "exc:" + type(e).__name__, 0))
+                            continue
+                        cov["constructions"] += 1
+                        created = sorted((k for k in w.snapshot() if k not in w.pristine), key=len)
+                        want = w.denotations(spelled)["full"]
+                        if not created or tuple(created[0].split("/")[:-1]) != want:
+                            note("a TempFS was created outside the temp_dir it was given", created=created[:4],
+                                 temp_dir="/" + "/".join(want), **ctx)
+                            continue
+                        D = tuple(created[0].split("/"))
+                        w.plant(D)
+                        w.plant(("B",) + D[1:])       # the same relative location below the other working directory
+                        gt0 = w.snapshot()
+                        w.state("B", cwd_rel)
+                        c2 = dict(ctx, fs="TempFS", api="constructor, then chdir / HOME / variables changed")
+                        b, n, _last = check_returned(w, T, D, c2, gt0=gt0)
+                        bad.extend(("after the working directory / environment changed, " + why, c) for why, c in b)
+                        cov["calls_after_state_change"] += n
+                        before_close = w.snapshot()
+                        del w.log[:]
+                        T.close()
+                        esc = w.escaped(D)
+                        out = diff_outside(before_close, w.snapshot(), D)
+                        if esc or out:
+                            note("after the working directory changed, closing a TempFS touched something outside its directory",
+                                 received=esc[:4], changed=out[:6], **ctx)
+                        results.append(("TempFS", text, "bad" if (b or esc or out) else "ok", n))
+                    finally:
+                        try:
+                            if T is not None:
+                                T.close()
+                        except Exception:  # noqa
+                            pass
+                        w.state("A", "")
+                        w.restore()
+    finally:
+        os.chdir(saved_cwd)
+        for k, v in saved_env.items():
+            if v is None:
+                os.environ.pop(k, None)
+            else:
+                os.environ[k] = v
+        shutil.rmtree(env["base"], ignore_errors=True)
+    cov["root_argument_types"] = sorted(cov["root_argument_types"])
+    return results, bad, cov
+
+
 def run(report):
     proof = common.preflight(report)
     rnd = random.Random(report.seed + 3)
@@ -488,12 +1612,24 @@ def run(report):
     bad += b
     n_model, b = model_check(paths)
     model_bad = b
+    rr, b, returned_cov = run_returned(rnd, thorough, report.seed)
+    results += [(x[0], x[1], x[2], x[3], x[4]) for x in rr]
+    bad += b
+    cr, b, ctor_cov = run_ctor_state(rnd, thorough, report.seed)
+    results += [(x[0], "constructor", x[1], x[2], x[3]) for x in cr]
+    bad += b
     seen = set()
+    pending_seen = set()
     for why, ctx in bad:
-        sig = why + " " + str(ctx.get("method", ctx.get("kind", "")))
+        sig = why + " " + str(ctx.get("method", ctx.get("kind", ctx.get("api", ""))))
         known = report.known_match(why)
         if known:
             report.known_finding(known)
+            continue
+        if why in PENDING_FINDINGS:
+            if why not in pending_seen:
+                pending_seen.add(why)
+                print("PENDING-FINDING property=C03 signature=%r (waiting for an entry in known_findings.json)" % why)
             continue
         if sig in seen or len(seen) >= 10:
             continue
@@ -510,10 +1646,17 @@ def run(report):
                     "delegate_path; non-trivial = distinct (kind, method, verdict)",
                samples=[dict(kind=x[0], method=x[1], position=x[2], path=x[3], verdict=x[4]) for x in results[:: max(1, len(results) // 6)][:6]],
                archive_queries=[list(x) for x in ar], disagreements_checked=len(bad) + len(model_bad),
-               model_comparisons=n_model, traces_validated_against_impl=len(results) - len(bad))
+               model_comparisons=n_model, traces_validated_against_impl=max(0, len(results) - len(bad)),
+               bound_object_methods=[m for m, _p, _q in bound_methods()],
+               returned_objects=returned_cov, constructor_state=ctor_cov)
     return report.finish(proof, cov, assumptions=[
         "the tree below the root contains no symbolic link leaving the root (the kernel, not a path string, would follow it)",
-        "system paths are observed at the boundary of fs.osfs (os, io, shutil, scandir module attributes)"])
+        "system paths are observed at the boundary of fs.osfs (os, io, shutil, scandir module attributes) and fs.tempfs "
+        "(shutil, tempfile); a relative system path is resolved against the working directory of the moment of the call",
+        "the NamedTemporaryFile with which OSFS.__init__ probes case sensitivity in the system temp directory is a fixed "
+        "probe independent of every path argument; it is exempted at construction time only",
+        "with expand_vars=False the root may denote either the literal directory (documentation) or the one with '~' "
+        "expanded (what OSFS does); whichever it opened at construction is the root it must stay in"])
 
 
 def replay(report, path):
